@@ -293,6 +293,7 @@ pub fn plan_from(v: &Value) -> R<Plan> {
         flips,
         fault_write,
         fault_flush,
+        fault_write_sized: None,
         vectored: v.get("native_vectored_writes").and_then(|x| x.as_bool()).unwrap_or(false),
         reenter_every: v.get("writer_builds_another_fst_inside_every_nth_write").and_then(|x| x.as_u64()).unwrap_or(0) as usize,
         err_repr: v.get("error_representation").and_then(|x| x.as_str()).and_then(crate::sink::ErrRepr::from_name).unwrap_or(crate::sink::ErrRepr::Message),
